@@ -163,6 +163,11 @@ func baseSchedules() []Scenario {
 	chain := mk(Spec{MaxHead: 100, MaxProc: 1000, Min: 3, Max: 8, Idle: "1000h", InitShards: 3, Targets: []TargetSpec{t(0, 60), t(1, 55), t(2, 30), t(3, 5)},
 		Initial: []Placement{{Shard: 0, ID: 0}, {Shard: 0, ID: 1}, {Shard: 1, ID: 2}, {Shard: 2, ID: 3}}})
 	chain.Events = []Event{{AtCycle: 3, Kind: "grow", Target: TargetSpec{ID: 2, Kept: 62}}}
+	// targets that are down (still discovered, explored earlier) while faults create copies to reconcile: the
+	// clean-up rules count scrape ATTEMPTS, a dead target must not stop them
+	downTargets := mk(Spec{MaxHead: 100, MaxProc: 150, Min: 2, Max: 8, Idle: "1000h", InitShards: 2, Targets: []TargetSpec{t(0, 40), t(1, 30), t(2, 20), t(3, 10)},
+		Initial: []Placement{{Shard: 0, ID: 0}, {Shard: 0, ID: 3}, {Shard: 1, ID: 1}, {Shard: 1, ID: 2}}})
+	downTargets.Events = []Event{{AtCycle: 0, Kind: "targetDown", Target: TargetSpec{ID: 1}}, {AtCycle: 0, Kind: "targetDown", Target: TargetSpec{ID: 3}}}
 	for c := 0; c < c06Perturbed; c++ {
 		chain.ScrapePlan = append(chain.ScrapePlan, []int{1, 3, 3, 3, 3, 3, 3, 3})
 	}
@@ -180,6 +185,7 @@ func baseSchedules() []Scenario {
 			Initial: []Placement{{Shard: 0, ID: 0}, {Shard: 0, ID: 3}, {Shard: 1, ID: 1}, {Shard: 1, ID: 2}}}),
 		spike,
 		chain,
+		downTargets,
 	}
 }
 
@@ -206,11 +212,11 @@ func singleFaults() []Event {
 func c06Cases(tier string, seed uint64) []c06Case {
 	var cs []c06Case
 	singles := singleFaults()
-	bases := []int{0, 1, 4, 5}
+	bases := []int{0, 1, 4, 5, 6}
 	if tier == "thorough" {
-		bases = []int{0, 1, 2, 3, 4, 5}
+		bases = []int{0, 1, 2, 3, 4, 5, 6}
 	}
-	for _, b := range []int{0, 1, 2, 3, 4, 5} {
+	for _, b := range []int{0, 1, 2, 3, 4, 5, 6} {
 		cs = append(cs, c06Case{Base: b}) // fault-free control
 	}
 	for _, b := range bases {
@@ -229,12 +235,12 @@ func c06Cases(tier string, seed uint64) []c06Case {
 		}
 		r := core.NewRng(seed, 0xC06)
 		for k := 0; k < 200; k++ {
-			cs = append(cs, c06Case{Base: r.Intn(6), Faults: []Event{singles[r.Intn(len(singles))], singles[r.Intn(len(singles))]}})
+			cs = append(cs, c06Case{Base: r.Intn(7), Faults: []Event{singles[r.Intn(len(singles))], singles[r.Intn(len(singles))]}})
 		}
 		return cs
 	}
 	// thorough: every pair on the two smallest schedules, sampled triples elsewhere
-	for _, b := range []int{1, 4, 5} {
+	for _, b := range []int{1, 4, 5, 6} {
 		for i := range singles {
 			for j := i + 1; j < len(singles); j++ {
 				cs = append(cs, c06Case{Base: b, Faults: []Event{singles[i], singles[j]}})
@@ -243,7 +249,7 @@ func c06Cases(tier string, seed uint64) []c06Case {
 	}
 	r := core.NewRng(seed, 0xC06)
 	for k := 0; k < 3000; k++ {
-		cs = append(cs, c06Case{Base: r.Intn(6), Faults: []Event{singles[r.Intn(len(singles))], singles[r.Intn(len(singles))], singles[r.Intn(len(singles))]}})
+		cs = append(cs, c06Case{Base: r.Intn(7), Faults: []Event{singles[r.Intn(len(singles))], singles[r.Intn(len(singles))], singles[r.Intn(len(singles))]}})
 	}
 	return cs
 }
@@ -260,9 +266,9 @@ func init() {
 	core.Register(&core.Prop{
 		ID:    "C06",
 		Level: "fault_enumeration",
-		Rule: "same closed loop as C03; 6 fixed small base schedules (first assignment with scale-up; relief of an overloaded shard; scale-down emptying the tail; steady state with late pods, kept volumes, head residue; relief whose overload ends while the moves are under way; a chained move: the relief destination becomes overloaded itself while the first source, scraping rarely, has not finished the hand-over), 8 perturbed cycles each; " +
+		Rule: "same closed loop as C03; 7 fixed small base schedules (steady state in which two of four targets answer 500 from the first cycle on; first assignment with scale-up; relief of an overloaded shard; scale-down emptying the tail; steady state with late pods, kept volumes, head residue; relief whose overload ends while the moves are under way; a chained move: the relief destination becomes overloaded itself while the first source, scraping rarely, has not finished the hand-over), 8 perturbed cycles each; " +
 			"fault alphabet injected at harness-owned boundaries, each armed for exactly the cycle(s) stated: target POST not delivered, POST delivered but answer lost, sidecar restart from its store, shard not ready for 1-2 cycles, status GET failing 1-2 cycles, runtime GET failing, the shard's Prometheus answering nothing for 1-2 cycles (its reload and head-series query fail inside the sidecar), config hash out of sync with rejected push for 1-2 cycles, tail shard removed while holding targets (+ late new shards via the schedule); " +
-			"enumeration: EVERY placement of one fault (13 variants x 8 cycles x shard 0..2) on four schedules (thorough: all six), a strided third on the others, 200 seed-sampled pairs (thorough: every pair on the three relief schedules + 3000 sampled triples); after the last fault the C03 predicate must be reached within B quiet cycles and stay for 5; " +
+			"enumeration: EVERY placement of one fault (13 variants x 8 cycles x shard 0..2) on five schedules (thorough: all seven), a strided third on the others, 200 seed-sampled pairs (thorough: every pair on the three relief schedules + 3000 sampled triples); after the last fault the C03 predicate must be reached within B quiet cycles and stay for 5; " +
 			"plus the restart fault on the REAL `kvass sidecar` process (8 / 64 cases, configuration pushed or from --config.file): assigned, killed, started twice more on the same volume, configuration pushed again as the coordinator would, no targets posted - the file given to Prometheus must list exactly the resumed targets in every life; " +
 			"plus 4/32 runs of the real processes (real coordinator binary, three real sidecar binaries) with a sidecar killed and restarted, the coordinator killed and restarted, or a shard unreachable for five cycles in the middle; " +
 			"non-trivial = a fault was really applied (or the control); distinct = (schedule, fault placements)",
